@@ -65,6 +65,12 @@ def planSetup (p : Plan) : Setup :=
 /-- Host names the client forwards: the allowed alphabet; addresses: digits and dots. -/
 def HostOk (h : Bytes × Bytes) : Prop := h.1.all isNameByte = true ∧ h.2.all isIpByte = true
 
+/-- Address a host map holds for a name. -/
+def mapLookup (m : List (Str × Str)) (n : Str) : Option Str := (m.find? (·.1 == n)).map (·.2)
+
+/-- The last address announced for a name in a history of updates (`none`: never announced). -/
+def lastFor (updates : List (Str × Str)) (n : Str) : Option Str := mapLookup updates.reverse n
+
 /-- Same plan, possibly another process id (the only field a cut inside the last line can touch). -/
 def SamePlan (a b : Setup) : Prop := { a with pid := 0 } = { b with pid := 0 }
 
